@@ -30,6 +30,9 @@ open AGV AGV.C04
 #print axioms matchCore_no_trace
 #print axioms isolate_simulates
 #print axioms isolate_agrees
+#print axioms isolate_agrees_full
+#print axioms isolateCore_simulates
+#print axioms isoCtx_is_the_oracle_context
 #print axioms all_s
 #print axioms isolate_example
 #print axioms matchCore_constraint_failure_restores_env
